@@ -206,6 +206,21 @@ RotateSecond ==
   /\ pc' = <<"idle">>
   /\ UNCHANGED <<alog, unsure, nc, nops, crashes>>
 
+(* Empty-log base-index reset (resetEmptyFirstSegmentBaseIndex): the first append of an empty log *)
+(* at an index other than the tail's BaseIndex replaces the empty tail by one with the right     *)
+(* base: metadata commit, create the new file, (the append itself follows as StoreWrite), and    *)
+(* the finalizer unlinks the old tail.                                                           *)
+ResetCommit ==
+  /\ Idle /\ Room /\ ~mem.rot /\ IsEmpty(alog)
+  /\ Len(fvol[TailOf(mem.segs).id].ents) = 0
+  /\ TailOf(mem.segs).base + 1 <= MaxIdx
+  /\ LET t == TailOf(mem.segs)
+         ns == Append(SubSeq(mem.segs, 1, Len(mem.segs) - 1), Seg(mem.next, t.base + 1, t.base + 1, 0, FALSE))
+     IN /\ meta' = [next |-> mem.next + 1, segs |-> ns]
+        /\ pc' = <<"del", "create", ns, {t.id}, alog>>        \* same post-commit steps as a truncation: create, publish, unlink
+  /\ nops' = nops + 1
+  /\ UNCHANGED <<vdir, ddir, fvol, fdur, mem, alog, unsure, nc, crashes, created>>
+
 ----------------------------------------------------------------------------
 (* DeleteRange: head truncation DeleteRange(first, newMin-1), tail truncation DeleteRange(newMax+1, last) *)
 HeadSegs(segs, newMin) ==      \* drop segments wholly below newMin, raise min of the new head
@@ -299,7 +314,7 @@ Crash ==
 
 Next ==
   \/ OpenLoad \/ OpenSegments \/ OpenInitCommit \/ OpenInitCreate \/ OpenRotate \/ OpenSweep
-  \/ StoreWrite \/ StoreSync \/ RotateFirst \/ RotateSecond
+  \/ StoreWrite \/ StoreSync \/ RotateFirst \/ RotateSecond \/ ResetCommit
   \/ \E i \in 1..(MaxIdx + 1) : DelHeadCommit(i)
   \/ \E i \in 0..MaxIdx : DelTailSeal(i) \/ DelTailDirect(i)
   \/ DelTailCommit \/ DelCreate \/ DelUnlink
